@@ -2,18 +2,666 @@
 //!
 //! Interprets integer-encoded operation sequences against the real control-message and
 //! segmentation logic and returns integer-encoded observations.
+//!
+//! Components (harness subcommand `udp`):
+//!
+//! `udp_cmsg` — pure calls, no sockets:
+//!   `[0, dst, ecn, clen, seg, einval, enc_src, srckind, src bytes..]`
+//!        really calls `prepare_msg` on an in-memory `msghdr` and walks the result with the
+//!        crate's own `cmsg::Iter`.  dst: 0 v4, 1 v6, 2 v4-mapped v6; ecn: 0 none | 1..3 codepoint
+//!        bits; clen: contents length; seg: 0 = `None` else `Some(seg)`; srckind: 0 none, 4 (then
+//!        4 bytes), 6 (then 16 bytes).
+//!        -> `[controllen, control_is_null, namelen, iovlen, iov_len, n, (level, type, cmsg_len, data bytes..)*]`
+//!   `[1, len, fam, addr.., port, (flowinfo, scope_id)?, items..]`
+//!        builds a control buffer with the crate's `cmsg::Encoder` (the messages a kernel would
+//!        attach on receive) plus a `sockaddr_storage`, then calls the real `decode_recv`.
+//!        fam: 4 (4 bytes, port) | 6 (16 bytes, port, flowinfo, scope) | other (no arguments).
+//!        items: 1 v = IP_TOS(u8) | 2 v = IP_RECVTOS(u8) | 3 v = IPV6_TCLASS(c_int)
+//!             | 4 ifindex s0..s3 a0..a3 = IP_PKTINFO | 5 a0..a15 ifindex = IPV6_PKTINFO
+//!             | 6 v = UDP_GRO(c_int) | 7 sec nsec = SCM_TIMESTAMPNS | 8 level type v = other c_int
+//!        -> `[0, len, stride, ecn, afam, ip.., port, flow, scope, dkind, dst.., ifindex|-1, has_ts, secs, nsecs]`
+//!         | `[1]` if `decode_recv` returns an error.  (`Encoder::push` overflow panics: whole case PANIC.)
+//!   `[2, clen, seg]` `Transmit::effective_segment_size` -> `[0]` | `[1, size]`
+//!
+//! `udp_loop` — real loopback sockets wrapped in `UdpSocketState`; the sockets are created by the
+//! first op of a case and shared by the following ops:
+//!   `[fam, clen, seg, ecn, src_sel, dst_sel, bufmode, nbufs, salt, sendmode, gro_off, einval]`
+//!     fam: 0 v4->v4, 1 v6->v6, 2 v4 sender -> dual-stack receiver (mapped peer),
+//!          3 dual-stack sender -> v4-mapped destination (v4 receiver)
+//!     src_sel: 0 none, 1 loopback address of the family, 2 alternative 127.0.0.2 (v4 senders),
+//!              3 v4-mapped v6 form of 127.0.0.2 (fam 3)
+//!     dst_sel: 0 127.0.0.1 / ::1, 1 127.0.0.3 (families with a v4 packet on the wire)
+//!     bufmode: 0 = 65535-byte buffers, 1 = min(seg,clen) * gro_segments, 2 = clen
+//!     sendmode: 0 = one `Transmit` (segmentation offload when seg < clen), 1 = one `Transmit`
+//!               per segment (what the caller does when `max_gso_segments() == 1`)
+//!     gro_off: 1 = UDP_GRO switched off on the receiving socket after `UdpSocketState::new`
+//!     einval: 1 = the `sendmsg_einval` fallback flag is set before sending
+//!   -> line `[status, max_gso_before, gro_segments, max_gso_after, einval_after, attempts, n_msgs, send_errors, last_errno]`
+//!      then one line per received message, unsplit, exactly as `recv` reported it:
+//!      `[len, stride, ecn, port_ok, ifindex_present, srckind, src.., dstkind, dst.., bytes..]`
+//!   Payload byte i is `(i + 3*(i/256) + salt) mod 256`.
 #![allow(missing_docs, dead_code, unused_imports, unreachable_pub, clippy::all)]
+
+use std::{
+    io::{self, IoSliceMut},
+    mem::{self, MaybeUninit},
+    net::{IpAddr, Ipv4Addr, Ipv6Addr, SocketAddr, SocketAddrV4, SocketAddrV6, UdpSocket},
+    time::{Duration, Instant},
+};
+
+use crate::{
+    BATCH_SIZE, EcnCodepoint, RecvMeta, Transmit, UdpSockRef, UdpSocketState, cmsg, imp,
+};
 
 /// One operation = opcode followed by integer arguments.
 pub type Ops = [Vec<i128>];
 /// One observation per operation.
 pub type Outs = Vec<Vec<i128>>;
 
-/// Constants for `coq/gen/Constants.v`.
-pub fn constants() -> Vec<(&'static str, i128)> {
-    vec![]
+fn space(n: usize) -> i128 {
+    unsafe { libc::CMSG_SPACE(n as _) as i128 }
+}
+fn clen(n: usize) -> i128 {
+    unsafe { libc::CMSG_LEN(n as _) as i128 }
 }
 
-pub fn run(_comp: &str, _ops: &Ops) -> Option<Outs> {
-    None
+/// Constants for `coq/gen/Constants.v`.
+pub fn constants() -> Vec<(&'static str, i128)> {
+    vec![
+        ("UDP_CMSG_LEN", cmsg::LEN as i128),
+        (
+            "UDP_CMSG_BUF_SIZE",
+            size_of::<cmsg::Aligned<[u8; cmsg::LEN]>>() as i128,
+        ),
+        (
+            "UDP_CMSG_BUF_ALIGN",
+            align_of::<cmsg::Aligned<[u8; cmsg::LEN]>>() as i128,
+        ),
+        ("UDP_CMSGHDR_SIZE", size_of::<libc::cmsghdr>() as i128),
+        ("UDP_CMSGHDR_ALIGN", align_of::<libc::cmsghdr>() as i128),
+        // CMSG_ALIGN granularity measured through libc: CMSG_SPACE(1) - CMSG_SPACE(0)
+        ("UDP_CMSG_ALIGN", space(1) - space(0)),
+        ("UDP_CMSG_SPACE_0", space(0)),
+        ("UDP_CMSG_LEN_0", clen(0)),
+        ("UDP_SZ_U8", size_of::<u8>() as i128),
+        ("UDP_SZ_U16", size_of::<u16>() as i128),
+        ("UDP_SZ_C_INT", size_of::<libc::c_int>() as i128),
+        ("UDP_SZ_IP_TOS_TY", size_of::<imp::IpTosTy>() as i128),
+        ("UDP_SZ_IN_PKTINFO", size_of::<libc::in_pktinfo>() as i128),
+        ("UDP_SZ_IN6_PKTINFO", size_of::<libc::in6_pktinfo>() as i128),
+        ("UDP_SZ_TIMESPEC", size_of::<libc::timespec>() as i128),
+        ("UDP_SPACE_U8", space(size_of::<u8>())),
+        ("UDP_SPACE_U16", space(size_of::<u16>())),
+        ("UDP_SPACE_C_INT", space(size_of::<libc::c_int>())),
+        ("UDP_SPACE_IN_PKTINFO", space(size_of::<libc::in_pktinfo>())),
+        ("UDP_SPACE_IN6_PKTINFO", space(size_of::<libc::in6_pktinfo>())),
+        ("UDP_SPACE_TIMESPEC", space(size_of::<libc::timespec>())),
+        ("UDP_IPPROTO_IP", libc::IPPROTO_IP as i128),
+        ("UDP_IPPROTO_IPV6", libc::IPPROTO_IPV6 as i128),
+        ("UDP_SOL_UDP", libc::SOL_UDP as i128),
+        ("UDP_SOL_SOCKET", libc::SOL_SOCKET as i128),
+        ("UDP_IP_TOS", libc::IP_TOS as i128),
+        ("UDP_IP_RECVTOS", libc::IP_RECVTOS as i128),
+        ("UDP_IPV6_TCLASS", libc::IPV6_TCLASS as i128),
+        ("UDP_IP_PKTINFO", libc::IP_PKTINFO as i128),
+        ("UDP_IPV6_PKTINFO", libc::IPV6_PKTINFO as i128),
+        ("UDP_UDP_SEGMENT", libc::UDP_SEGMENT as i128),
+        ("UDP_UDP_GRO", libc::UDP_GRO as i128),
+        ("UDP_SCM_TIMESTAMPNS", libc::SCM_TIMESTAMPNS as i128),
+        ("UDP_BATCH_SIZE", BATCH_SIZE as i128),
+        ("UDP_LITTLE_ENDIAN", cfg!(target_endian = "little") as i128),
+        (
+            "UDP_SOCKADDR_IN_SIZE",
+            size_of::<libc::sockaddr_in>() as i128,
+        ),
+        (
+            "UDP_SOCKADDR_IN6_SIZE",
+            size_of::<libc::sockaddr_in6>() as i128,
+        ),
+    ]
+}
+
+pub fn run(comp: &str, ops: &Ops) -> Option<Outs> {
+    match comp {
+        "udp_cmsg" => Some(ops.iter().map(|op| cmsg_op(op)).collect()),
+        "udp_loop" => Some(udp_loop(ops)),
+        _ => None,
+    }
+}
+
+// ------------------------------------------------------------------------------------------
+// udp_cmsg
+
+fn ecn_of(x: i128) -> Option<EcnCodepoint> {
+    EcnCodepoint::from_bits(x as u8)
+}
+
+fn ip_out(o: &mut Vec<i128>, ip: Option<IpAddr>) {
+    match ip {
+        None => o.push(0),
+        Some(IpAddr::V4(a)) => {
+            o.push(4);
+            o.extend(a.octets().iter().map(|b| *b as i128));
+        }
+        Some(IpAddr::V6(a)) => {
+            o.push(6);
+            o.extend(a.octets().iter().map(|b| *b as i128));
+        }
+    }
+}
+
+fn v6_of(b: &[i128]) -> Ipv6Addr {
+    let mut a = [0u8; 16];
+    for (i, x) in b.iter().take(16).enumerate() {
+        a[i] = *x as u8;
+    }
+    Ipv6Addr::from(a)
+}
+
+fn v4_of(b: &[i128]) -> Ipv4Addr {
+    Ipv4Addr::new(b[0] as u8, b[1] as u8, b[2] as u8, b[3] as u8)
+}
+
+/// Walks the control buffer of `hdr` with the crate's own iterator.
+fn walk(hdr: &libc::msghdr, o: &mut Vec<i128>) {
+    let mut items: Vec<Vec<i128>> = Vec::new();
+    let hdr_len = clen(0) as usize;
+    for c in unsafe { cmsg::Iter::new(hdr) } {
+        let mut it = vec![
+            c.cmsg_level as i128,
+            c.cmsg_type as i128,
+            c.cmsg_len as i128,
+        ];
+        let n = (c.cmsg_len as usize).saturating_sub(hdr_len).min(cmsg::LEN);
+        let data = unsafe { libc::CMSG_DATA(c) };
+        for i in 0..n {
+            it.push(unsafe { *data.add(i) } as i128);
+        }
+        items.push(it);
+        if items.len() > 16 {
+            break;
+        }
+    }
+    o.push(items.len() as i128);
+    for it in items {
+        o.extend(it);
+    }
+}
+
+fn cmsg_op(op: &[i128]) -> Vec<i128> {
+    match op[0] {
+        0 => {
+            let dst: SocketAddr = match op[1] {
+                0 => SocketAddr::new(IpAddr::V4(Ipv4Addr::new(127, 0, 0, 1)), 4433),
+                1 => SocketAddr::new(IpAddr::V6(Ipv6Addr::LOCALHOST), 4433),
+                _ => SocketAddr::new(
+                    IpAddr::V6(Ipv4Addr::new(127, 0, 0, 1).to_ipv6_mapped()),
+                    4433,
+                ),
+            };
+            let contents = vec![0u8; op[3] as usize];
+            let src_ip = match op[7] {
+                4 => Some(IpAddr::V4(v4_of(&op[8..12]))),
+                6 => Some(IpAddr::V6(v6_of(&op[8..24]))),
+                _ => None,
+            };
+            let t = Transmit {
+                destination: dst,
+                ecn: ecn_of(op[2]),
+                contents: &contents,
+                segment_size: if op[4] > 0 { Some(op[4] as usize) } else { None },
+                src_ip,
+            };
+            let mut hdr: libc::msghdr = unsafe { mem::zeroed() };
+            let mut iov: libc::iovec = unsafe { mem::zeroed() };
+            let mut ctrl = cmsg::Aligned([0u8; cmsg::LEN]);
+            let dst_addr = socket2::SockAddr::from(dst);
+            imp::verif_access::prepare_msg(
+                &t,
+                &dst_addr,
+                &mut hdr,
+                &mut iov,
+                &mut ctrl,
+                op[6] != 0,
+                op[5] != 0,
+            );
+            let mut o = vec![
+                hdr.msg_controllen as i128,
+                hdr.msg_control.is_null() as i128,
+                hdr.msg_namelen as i128,
+                hdr.msg_iovlen as i128,
+                iov.iov_len as i128,
+            ];
+            walk(&hdr, &mut o);
+            o
+        }
+        1 => {
+            let len = op[1] as usize;
+            let mut name = MaybeUninit::<libc::sockaddr_storage>::zeroed();
+            let mut i = 3;
+            match op[2] {
+                4 => {
+                    let sa = name.as_mut_ptr() as *mut libc::sockaddr_in;
+                    unsafe {
+                        (*sa).sin_family = libc::AF_INET as libc::sa_family_t;
+                        (*sa).sin_addr.s_addr =
+                            u32::from_ne_bytes(v4_of(&op[i..i + 4]).octets());
+                        (*sa).sin_port = (op[i + 4] as u16).to_be();
+                    }
+                    i += 5;
+                }
+                6 => {
+                    let sa = name.as_mut_ptr() as *mut libc::sockaddr_in6;
+                    unsafe {
+                        (*sa).sin6_family = libc::AF_INET6 as libc::sa_family_t;
+                        (*sa).sin6_addr.s6_addr = v6_of(&op[i..i + 16]).octets();
+                        (*sa).sin6_port = (op[i + 16] as u16).to_be();
+                        (*sa).sin6_flowinfo = op[i + 17] as u32;
+                        (*sa).sin6_scope_id = op[i + 18] as u32;
+                    }
+                    i += 19;
+                }
+                f => {
+                    let sa = name.as_mut_ptr();
+                    unsafe { (*sa).ss_family = f as libc::sa_family_t };
+                }
+            }
+            let mut hdr: libc::msghdr = unsafe { mem::zeroed() };
+            let mut ctrl = cmsg::Aligned([0u8; cmsg::LEN]);
+            hdr.msg_control = ctrl.0.as_mut_ptr() as _;
+            hdr.msg_controllen = cmsg::LEN as _;
+            {
+                let mut enc = unsafe { cmsg::Encoder::new(&mut hdr) };
+                while i < op.len() {
+                    match op[i] {
+                        1 => {
+                            enc.push(libc::IPPROTO_IP, libc::IP_TOS, op[i + 1] as u8);
+                            i += 2;
+                        }
+                        2 => {
+                            enc.push(libc::IPPROTO_IP, libc::IP_RECVTOS, op[i + 1] as u8);
+                            i += 2;
+                        }
+                        3 => {
+                            enc.push(
+                                libc::IPPROTO_IPV6,
+                                libc::IPV6_TCLASS,
+                                op[i + 1] as libc::c_int,
+                            );
+                            i += 2;
+                        }
+                        4 => {
+                            let p = libc::in_pktinfo {
+                                ipi_ifindex: op[i + 1] as _,
+                                ipi_spec_dst: libc::in_addr {
+                                    s_addr: u32::from_ne_bytes(v4_of(&op[i + 2..i + 6]).octets()),
+                                },
+                                ipi_addr: libc::in_addr {
+                                    s_addr: u32::from_ne_bytes(v4_of(&op[i + 6..i + 10]).octets()),
+                                },
+                            };
+                            enc.push(libc::IPPROTO_IP, libc::IP_PKTINFO, p);
+                            i += 10;
+                        }
+                        5 => {
+                            let p = libc::in6_pktinfo {
+                                ipi6_addr: libc::in6_addr {
+                                    s6_addr: v6_of(&op[i + 1..i + 17]).octets(),
+                                },
+                                ipi6_ifindex: op[i + 17] as _,
+                            };
+                            enc.push(libc::IPPROTO_IPV6, libc::IPV6_PKTINFO, p);
+                            i += 18;
+                        }
+                        6 => {
+                            enc.push(libc::SOL_UDP, libc::UDP_GRO, op[i + 1] as libc::c_int);
+                            i += 2;
+                        }
+                        7 => {
+                            let ts = libc::timespec {
+                                tv_sec: op[i + 1] as _,
+                                tv_nsec: op[i + 2] as _,
+                            };
+                            enc.push(libc::SOL_SOCKET, libc::SCM_TIMESTAMPNS, ts);
+                            i += 3;
+                        }
+                        _ => {
+                            enc.push(
+                                op[i + 1] as libc::c_int,
+                                op[i + 2] as libc::c_int,
+                                op[i + 3] as libc::c_int,
+                            );
+                            i += 4;
+                        }
+                    }
+                }
+                enc.finish();
+            }
+            match imp::decode_recv(&name, &hdr, len) {
+                Err(_) => vec![1],
+                Ok(m) => {
+                    let mut o = vec![
+                        0,
+                        m.len as i128,
+                        m.stride as i128,
+                        m.ecn.map_or(0, |e| e as u8 as i128),
+                    ];
+                    match m.addr {
+                        SocketAddr::V4(a) => {
+                            ip_out(&mut o, Some(IpAddr::V4(*a.ip())));
+                            o.extend([a.port() as i128, 0, 0]);
+                        }
+                        SocketAddr::V6(a) => {
+                            ip_out(&mut o, Some(IpAddr::V6(*a.ip())));
+                            o.extend([
+                                a.port() as i128,
+                                a.flowinfo() as i128,
+                                a.scope_id() as i128,
+                            ]);
+                        }
+                    }
+                    ip_out(&mut o, m.dst_ip);
+                    o.push(m.interface_index.map_or(-1, |x| x as i128));
+                    match m.timestamp {
+                        None => o.extend([0, 0, 0]),
+                        Some(d) => o.extend([1, d.as_secs() as i128, d.subsec_nanos() as i128]),
+                    }
+                    o
+                }
+            }
+        }
+        2 => {
+            let contents = vec![0u8; op[1] as usize];
+            let t = Transmit {
+                destination: SocketAddr::new(IpAddr::V4(Ipv4Addr::UNSPECIFIED), 1),
+                ecn: None,
+                contents: &contents,
+                segment_size: if op[2] > 0 { Some(op[2] as usize) } else { None },
+                src_ip: None,
+            };
+            match t.effective_segment_size() {
+                None => vec![0],
+                Some(s) => vec![1, s as i128],
+            }
+        }
+        _ => vec![-1],
+    }
+}
+
+// ------------------------------------------------------------------------------------------
+// udp_loop
+
+fn pattern(len: usize, salt: usize) -> Vec<u8> {
+    (0..len)
+        .map(|i| ((i + 3 * (i / 256) + salt) % 256) as u8)
+        .collect()
+}
+
+fn errno_of(e: &io::Error) -> i128 {
+    e.raw_os_error().map_or(-1, |x| x as i128)
+}
+
+struct Pair {
+    tx: UdpSocket,
+    rx: UdpSocket,
+    tx_state: UdpSocketState,
+    rx_state: UdpSocketState,
+    gro_disabled: bool,
+}
+
+fn dual_stack() -> io::Result<UdpSocket> {
+    let s = socket2::Socket::new(
+        socket2::Domain::IPV6,
+        socket2::Type::DGRAM,
+        Some(socket2::Protocol::UDP),
+    )?;
+    s.set_only_v6(false)?;
+    s.bind(&socket2::SockAddr::from(SocketAddr::new(
+        IpAddr::V6(Ipv6Addr::UNSPECIFIED),
+        0,
+    )))?;
+    Ok(s.into())
+}
+
+fn make_pair(fam: i128) -> io::Result<Pair> {
+    let v4any = SocketAddr::new(IpAddr::V4(Ipv4Addr::UNSPECIFIED), 0);
+    let v6any = SocketAddr::new(IpAddr::V6(Ipv6Addr::UNSPECIFIED), 0);
+    let (tx, rx) = match fam {
+        0 => (UdpSocket::bind(v4any)?, UdpSocket::bind(v4any)?),
+        1 => {
+            let t = socket2::Socket::new(
+                socket2::Domain::IPV6,
+                socket2::Type::DGRAM,
+                Some(socket2::Protocol::UDP),
+            )?;
+            t.set_only_v6(true)?;
+            t.bind(&socket2::SockAddr::from(v6any))?;
+            let r = socket2::Socket::new(
+                socket2::Domain::IPV6,
+                socket2::Type::DGRAM,
+                Some(socket2::Protocol::UDP),
+            )?;
+            r.set_only_v6(true)?;
+            r.bind(&socket2::SockAddr::from(v6any))?;
+            (t.into(), r.into())
+        }
+        2 => (UdpSocket::bind(v4any)?, dual_stack()?),
+        _ => (dual_stack()?, UdpSocket::bind(v4any)?),
+    };
+    let tx_state = UdpSocketState::new((&tx).into())?;
+    let rx_state = UdpSocketState::new((&rx).into())?;
+    Ok(Pair {
+        tx,
+        rx,
+        tx_state,
+        rx_state,
+        gro_disabled: false,
+    })
+}
+
+const V4_MAIN: Ipv4Addr = Ipv4Addr::new(127, 0, 0, 1);
+const V4_ALT_SRC: Ipv4Addr = Ipv4Addr::new(127, 0, 0, 2);
+const V4_ALT_DST: Ipv4Addr = Ipv4Addr::new(127, 0, 0, 3);
+
+fn udp_loop(ops: &Ops) -> Outs {
+    let mut outs: Outs = Vec::new();
+    let mut pair: Option<Pair> = None;
+    for op in ops {
+        if pair.is_none() {
+            match make_pair(op[0]) {
+                Ok(p) => pair = Some(p),
+                Err(e) => {
+                    outs.push(vec![1, 0, errno_of(&e)]);
+                    continue;
+                }
+            }
+        }
+        let p = pair.as_mut().unwrap();
+        loop_op(p, op, &mut outs);
+    }
+    outs
+}
+
+fn loop_op(p: &mut Pair, op: &[i128], outs: &mut Outs) {
+    let fam = op[0];
+    let clen = op[1] as usize;
+    let seg = op[2] as usize;
+    let ecn = ecn_of(op[3]);
+    let src_sel = op[4];
+    let dst_sel = op[5];
+    let bufmode = op[6];
+    let nbufs = (op[7] as usize).clamp(1, BATCH_SIZE);
+    let salt = op[8] as usize;
+    let sendmode = op[9];
+    let gro_off = op[10] != 0;
+    let einval = op[11] != 0;
+
+    let t_start = Instant::now();
+    let deadline = t_start + Duration::from_millis(200);
+
+    if gro_off && !p.gro_disabled {
+        let _ = imp::set_socket_option(&p.rx, libc::SOL_UDP, libc::UDP_GRO, 0);
+        p.gro_disabled = true;
+    }
+    if einval {
+        imp::verif_access::set_sendmsg_einval(&p.tx_state);
+    }
+    let rx_port = match p.rx.local_addr() {
+        Ok(a) => a.port(),
+        Err(e) => {
+            outs.push(vec![1, 1, errno_of(&e)]);
+            return;
+        }
+    };
+    let tx_port = p.tx.local_addr().map(|a| a.port()).unwrap_or(0);
+    let v4dst = if dst_sel == 1 { V4_ALT_DST } else { V4_MAIN };
+    let destination = match fam {
+        0 | 2 => SocketAddr::new(IpAddr::V4(v4dst), rx_port),
+        1 => SocketAddr::new(IpAddr::V6(Ipv6Addr::LOCALHOST), rx_port),
+        _ => SocketAddr::new(IpAddr::V6(v4dst.to_ipv6_mapped()), rx_port),
+    };
+    let src_ip = match (src_sel, fam) {
+        (0, _) => None,
+        (1, 1) => Some(IpAddr::V6(Ipv6Addr::LOCALHOST)),
+        (1, _) => Some(IpAddr::V4(V4_MAIN)),
+        (2, 1) => Some(IpAddr::V6(Ipv6Addr::LOCALHOST)),
+        (2, _) => Some(IpAddr::V4(V4_ALT_SRC)),
+        (_, 3) => Some(IpAddr::V6(V4_ALT_SRC.to_ipv6_mapped())),
+        (_, 1) => Some(IpAddr::V6(Ipv6Addr::LOCALHOST)),
+        (_, _) => Some(IpAddr::V4(V4_ALT_SRC)),
+    };
+    let contents = pattern(clen, salt);
+    let max_gso_before = p.tx_state.max_gso_segments();
+    let gro_segments = p.rx_state.gro_segments();
+
+    let dgram = if seg > 0 { seg.min(clen) } else { clen }.max(1);
+    let bufsize = match bufmode {
+        0 => 65535,
+        1 => (dgram * gro_segments).min(65535),
+        _ => clen.max(1),
+    };
+
+    let mut attempts = 0;
+    let mut send_errors = 0i128;
+    let mut last_errno = 0i128;
+    let mut msgs: Vec<Vec<i128>> = Vec::new();
+    while attempts < 2 {
+        attempts += 1;
+        msgs.clear();
+        // ---- send with the real `try_send` (same code path as `send`, errors visible)
+        let mut do_send = |t: &Transmit<'_>| {
+            let mut spins = 0;
+            loop {
+                match p.tx_state.try_send((&p.tx).into(), t) {
+                    Ok(()) => break,
+                    Err(e) if e.kind() == io::ErrorKind::WouldBlock && spins < 20 => {
+                        spins += 1;
+                        std::thread::sleep(Duration::from_millis(1));
+                    }
+                    Err(e) => {
+                        send_errors += 1;
+                        last_errno = errno_of(&e);
+                        break;
+                    }
+                }
+            }
+        };
+        if sendmode == 0 || seg == 0 {
+            do_send(&Transmit {
+                destination,
+                ecn,
+                contents: &contents,
+                segment_size: if seg > 0 { Some(seg) } else { None },
+                src_ip,
+            });
+        } else {
+            for chunk in contents.chunks(seg) {
+                do_send(&Transmit {
+                    destination,
+                    ecn,
+                    contents: chunk,
+                    segment_size: Some(seg),
+                    src_ip,
+                });
+            }
+        }
+        // ---- receive with the real `recv`
+        let mut storage = vec![vec![0u8; bufsize]; nbufs];
+        let mut total = 0usize;
+        let mut idle = 0;
+        while total < clen && Instant::now() < deadline && msgs.len() < 4096 {
+            let mut metas = [RecvMeta::default(); BATCH_SIZE];
+            let res = {
+                let mut bufs: Vec<IoSliceMut<'_>> =
+                    storage.iter_mut().map(|b| IoSliceMut::new(b)).collect();
+                p.rx_state
+                    .recv((&p.rx).into(), &mut bufs, &mut metas[..nbufs])
+            };
+            match res {
+                Ok(n) => {
+                    idle = 0;
+                    for k in 0..n {
+                        let m = &metas[k];
+                        let mut o = vec![
+                            m.len as i128,
+                            m.stride as i128,
+                            m.ecn.map_or(0, |e| e as u8 as i128),
+                            (m.addr.port() == tx_port) as i128,
+                            m.interface_index.is_some() as i128,
+                        ];
+                        ip_out(&mut o, Some(m.addr.ip()));
+                        ip_out(&mut o, m.dst_ip);
+                        let l = m.len.min(bufsize);
+                        o.extend(storage[k][..l].iter().map(|b| *b as i128));
+                        total += m.len;
+                        msgs.push(o);
+                    }
+                }
+                Err(e) if e.kind() == io::ErrorKind::WouldBlock => {
+                    idle += 1;
+                    // nothing was sent at all: do not wait for the deadline
+                    if send_errors > 0 && idle > 3 {
+                        break;
+                    }
+                    if idle > 40 {
+                        break;
+                    }
+                    std::thread::sleep(Duration::from_millis(1));
+                }
+                Err(e) => {
+                    send_errors += 1;
+                    last_errno = -errno_of(&e);
+                    break;
+                }
+            }
+        }
+        if total >= clen || send_errors > 0 {
+            break;
+        }
+        // short: drain what is left and retry once
+        std::thread::sleep(Duration::from_millis(2));
+        let mut metas = [RecvMeta::default(); BATCH_SIZE];
+        for _ in 0..64 {
+            let mut bufs: Vec<IoSliceMut<'_>> =
+                storage.iter_mut().map(|b| IoSliceMut::new(b)).collect();
+            if p.rx_state
+                .recv((&p.rx).into(), &mut bufs, &mut metas[..nbufs])
+                .is_err()
+            {
+                break;
+            }
+        }
+    }
+    outs.push(vec![
+        0,
+        max_gso_before as i128,
+        gro_segments as i128,
+        p.tx_state.max_gso_segments() as i128,
+        p.tx_state.sendmsg_einval() as i128,
+        attempts as i128,
+        msgs.len() as i128,
+        send_errors,
+        last_errno,
+    ]);
+    outs.extend(msgs);
 }
